@@ -1361,7 +1361,7 @@ theorem analyzeStack_fuel_artefact : analyzeStack songA = .error .fuel := by
   have w3 : wrap16 3 = 3 := by decide
   have w4 : wrap16 4 = 4 := by decide
   have w5 : wrap16 5 = 5 := by decide
-  simp [analyzeStack_eq, List.foldlM, asBody, songA, analyzeTrack.eq_2, go_cons, stepR, calleeR, analyzeTrack.eq_1,
+  simp [analyzeStack, analyzeStackStep, List.foldlM, songA, analyzeTrack.eq_2, go_cons, stepR, calleeR, analyzeTrack.eq_1,
     jmp, usage0, k1, k2, k3, j1, j2, getSA, setSA, List.lookup, Song.track?, w1, w2, w3, w4, w5]
 
 example : ¬ SongI16 songA := by decide
